@@ -64,7 +64,7 @@ Record prog := {
 
 (* Two kinds of goroutine.
    KParse: runs parsley.Parse / parsley.Evaluate on a parser graph that was built before and is
-           shared with every other thread, with its own Context, Reader, File, FileSet.
+           shared with every other thread, with its own Context, Reader and File (a FileSet may be shared).
    KCtor:  any other client of the API working on objects it created itself (in particular:
            constructing parsers); it shares only package-level state with the other threads. *)
 Inductive kind := KParse | KCtor.
@@ -75,9 +75,12 @@ Inductive kind := KParse | KCtor.
    the premise of the property (own context, reader, input).  Every other type — listed in
    [shared_types] or not listed at all — is treated as SHARED between all parse threads. *)
 Definition local_types : list string := [
-  (* the premise: each parse has its own context (with its result cache and error), reader, file, file set *)
+  (* the premise: each parse has its own context (with its result cache and error), reader and file (input).
+     parsley.FileSet is NOT here: one file set holding the files of a project may be shared by concurrent runs
+     (round-3 seed C14_r3m2), so writes to FileSet fields reachable from Parse/Evaluate are conflicts; the
+     text.File objects registered in it stay per-run (each run parses its own file). *)
   "parsley.Context"; "parsley.ResultCache"; "map[parsley.Pos]*parsley.Result"; "parsley.Result";
-  "parsley.FileSet"; "text.Reader"; "text.File";
+  "text.Reader"; "text.File";
   (* allocated per call of Sequence.Parse *)
   "combinator.sequence";
   (* AST nodes and node lists are created by the parse that returns them *)
@@ -87,7 +90,7 @@ Definition local_types : list string := [
   "text/terminal.StringNode"; "text/terminal.TimeDurationNode";
   (* IntMap / IntSet values are created during a parse; the two shared empty values
      data.EmptyIntMap / data.EmptyIntSet are never written through (property C15) *)
-  "data.IntMap"; "data.IntSet"; "[]int";
+  "data.IntMap"; "data.IntSet";
   (* values computed by interpreters and variadic argument slices: allocated per call *)
   "[]interface{}";
   (* input bytes (own input) and scratch buffers *)
@@ -96,7 +99,7 @@ Definition local_types : list string := [
      as safe for concurrent use by multiple goroutines *)
   "regexp.Regexp" ].
 
-Definition shared_types : list string := [ "combinator.Sequence"; "parser.FuncWrapper" ].
+Definition shared_types : list string := [ "combinator.Sequence"; "parser.FuncWrapper"; "parsley.FileSet"; "[]int" ].
 
 (* Package-level variables of a local type that are known to be immutable (C15). *)
 Definition immutable_globals : list string := [ "data.EmptyIntMap"; "data.EmptyIntSet" ].
